@@ -9,6 +9,7 @@ func init() {
 	hf := []HarnessFile{
 		{RepoDir: "internal/coq", Pkg: "coq", Src: "coq/zz_verif_c08.go"},
 		{RepoDir: ".", Pkg: "goose", Src: "goose/zz_verif_c08.go"},
+		{RepoDir: ".", Pkg: "goose", Src: "goose/zz_verif_stubs.go"},
 	}
 	big := engine.Options{Budget: 5_000_000, MaxPaths: 2_000_000}
 	Register(&Check{
